@@ -27,6 +27,7 @@ def run(ctx, report):
     report.section("SAMI neighbours", sami_neighbours, ctx, report)
     report.section("argument order", argument_order, ctx, report)
     report.section("label stores", label_stores, ctx, report)
+    report.section("SAMI language classes", sami_language_classes, ctx, report)
     report.not_decided += ["SAMI: placement of secondary-language paragraphs into <sync> blocks and the non-decreasing "
                            "order of blocks for arbitrary interleavings (value dependent)",
                            "SAMI writer: a paragraph is labelled with the caption's class when the stylesheet gives that "
@@ -292,3 +293,66 @@ def label_stores(ctx, report):
     report.check(not extra, "R-WHO-WRITES", ("pycaption/sami.py", "SAMIParser"),
                  "a language is listed only when a paragraph of that language is met (order of first appearance)",
                  {"routines_adding_languages": sorted(set(writers)), "unexpected": extra}, "1")
+
+
+def sami_language_classes(ctx, report):
+    """In SAMI a paragraph's language is the language its class declares.  Folded from source:
+    (a) _recreate_p_lang gives a paragraph the caption's own class only when that class declares a
+        language, otherwise the language code itself;
+    (b) _recreate_stylesheet writes every non-empty style block and, for every language of the set,
+        a class that declares it - exactly once."""
+    import itertools
+    import re as _re
+    from ..core.constfold import Folder, Stub
+    folder = ctx.memo("folder", lambda: Folder(ctx.index))
+    wcls = ctx.index.get_class("pycaption/sami.py", "SAMIWriter")
+    pl = ctx.index.get_function("pycaption/sami.py", "SAMIWriter._recreate_p_lang")
+    ss = ctx.index.get_function("pycaption/sami.py", "SAMIWriter._recreate_stylesheet")
+    for f in (pl, ss):
+        report.covered(f)
+    styles = {"frcc": {"lang": "fr-FR", "color": "red"}, "big": {"font-size": "20px"}, "empty": {}}
+
+    def captions_stub():
+        return Stub("caption-set", {}, {"get_style": lambda name: dict(styles.get(name, {}))})
+    cases = [({"class": "frcc"}, "frcc", "class that declares a language"),
+             ({"class": "big"}, "xx", "class without a language"),
+             ({"class": "empty"}, "xx", "class with no rules"),
+             ({"class": "unknown"}, "xx", "class that is not in the stylesheet"),
+             ({}, "xx", "caption without a class"),
+             ({"italics": True}, "xx", "caption with inline style only")]
+    bad = []
+    for style, want, label in cases:
+        try:
+            got = folder.call_function(pl, [Stub("caption", {"style": dict(style)}), "xx", captions_stub()],
+                                       self_value=Stub("writer", {}, cls=wcls))
+        except AnalysisError as e:
+            raise AnalysisError(f"_recreate_p_lang cannot be folded on '{label}': {e}")
+        if got != want:
+            bad.append({"caption": label, "class_written": got, "required": want})
+    report.check(not bad, "R-LABEL", pl, "a paragraph carries the caption's class only if that class declares a language, "
+                 "else the language code", {"cases_folded": len(cases), "mismatches": bad}, "2")
+    # (b) stylesheet
+    bad = []
+    n = 0
+    for langs in (["en-US"], ["en-US", "fr-FR"], ["fr-FR", "de"]):
+        for extra in ([], [("frcc", styles["frcc"])], [("big", styles["big"]), ("empty", {})], [("p", {"color": "white"})]):
+            n += 1
+            cs = Stub("caption-set", {"layout_info": None},
+                      {"get_styles": lambda extra=extra: [(k, dict(v)) for k, v in extra],
+                       "get_languages": lambda langs=langs: list(langs), "get_layout_info": lambda lang: None})
+            try:
+                out = folder.call_function(ss, [cs], self_value=Stub("writer", {}, cls=wcls))
+            except AnalysisError as e:
+                raise AnalysisError(f"_recreate_stylesheet cannot be folded: {e}")
+            if not isinstance(out, str):
+                raise AnalysisError("_recreate_stylesheet does not fold to a string")
+            for lang in langs:
+                k = len(_re.findall(r"lang:\s*" + _re.escape(lang) + r"\b", out))
+                if k != 1:
+                    bad.append({"languages": langs, "styles": [e[0] for e in extra], "declarations_of": lang, "count": k})
+            for name, rules in extra:
+                present = (f".{name} " in out) or (f"\n    {name} " in out)
+                if bool(rules) != present:
+                    bad.append({"languages": langs, "style": name, "rules": rules, "block_written": present})
+    report.check(not bad, "R-LABEL", ss, "the stylesheet declares every language of the set exactly once and writes every "
+                 "non-empty style block", {"caption_sets_folded": n, "mismatches": bad[:3]}, "2")
